@@ -25,6 +25,13 @@ IsPartition(s, e, k, bl) ==
     /\ \A i, j \in 1..Len(bl) : i # j => BlockDays(bl[i]) \cap BlockDays(bl[j]) = {}
     /\ UNION {BlockDays(bl[i]) : i \in 1..Len(bl)} = DaysOf(s, e)
 
+\* the partition of date.rs as a function (DateRange.tla checks its state machine computes this)
+RECURSIVE BlocksFrom(_, _, _)
+BlocksFrom(c, e, bs) == IF c > e THEN <<>>
+                        ELSE << <<c, Min(c + bs - 1, e)>> >> \o BlocksFrom(c + bs, e, bs)
+PartitionFn(s, e, k) == IF k < 2 THEN << <<s, e>> >>
+                        ELSE BlocksFrom(s, e, CeilDiv(NumDays(s, e), k))
+
 \* a range result summarised losslessly: n keys, smallest, largest, keys consecutive
 IsRangeResult(s, e, n, first, last, contig) ==
     /\ n = NumDays(s, e)
